@@ -3,6 +3,8 @@
    grammar, cost table, rule order, filter, fuel and HISTORY (interleaving of `take k` and `merge_program`). -/
 import PS.Proofs.Enum.BeeSoundRun
 import PS.Proofs.Enum.BeeNodupRun
+import PS.Proofs.Enum.BeeCover
+import Mathlib.Data.List.Perm.Subperm
 namespace PS.C02Bee
 open PS PS.G PS.Bee
 
@@ -119,7 +121,37 @@ theorem C02_Bee_bank_nodup_partial (E : Env S) (hd : dictOK E = true) (hf : init
   have := (runActs_nodup E fuel acts g0 g [] out hacts h (gn_new E (dictOK_of_check E hd) hf g0 h0) ⟨by simp, by simp⟩).1.st
   exact ⟨this.bankNd, this.bankU, this.front⟩
 
-example : dictOK cE = true ∧ initFrontOK cE = true := by decide +kernel
+/-- **THE FRONTIER RULE REACHES EVERY INDEX COMBINATION, EACH ONCE**: after any history without merge declarations, for
+    every rule `(S, P)` of the table and every index combination `c` of the rule's arity, `c` is expanded (popped: a strict
+    ancestor of a pending combination), or pending (queued or delayed), or a descendant of a pending combination — and the
+    pending combinations are pairwise distinct and none is an ancestor of another, so `c` is in exactly one of the three
+    cases and is (or will be) pushed exactly once.  Decidable hypotheses: `dictOK`, `initFrontOK`, `initCoverOK` (the
+    fresh enumerator holds the root `(0,…,0)` of every listed rule). -/
+theorem C02_Bee_frontier_cover_partial (E : Env S) (hd : dictOK E = true) (hf : initFrontOK E = true)
+    (hc : initCoverOK E = true) (fuel : Nat) (acts : List Act) (hacts : acts.all Act.isTake = true) (g0 g : Gen S)
+    (out : List Prog) (h0 : Gen.new E = some g0) (h : runActs E fuel acts g0 [] = some (g, out)) :
+    ∀ nt P args, ruleArgs E nt P = some args → ∀ c : List Nat, c.length = args.length →
+      Frontier (pend g.st nt P) ∧ Cov (pend g.st nt P) c ∧ (Done (pend g.st nt P) c → c ∉ pend g.st nt P) := by
+  intro nt P args ha c hcl
+  have hgn := gn_new E (dictOK_of_check E hd) hf g0 h0
+  have h1 := (runActs_nodup E fuel acts g0 g [] out hacts h hgn ⟨by simp, by simp⟩).1.st.front nt P
+  have h2 := runActs_cover E fuel acts g0 g [] out hacts h hgn ⟨by simp, by simp⟩ (cov_new E hc g0 h0) nt P args ha c hcl
+  exact ⟨h1, h2, fun hd' => Done.not_mem h1 hd'⟩
+
+/-- **COMPLETE WHEN THE COUNT IS REACHED** (partial correctness of the stop condition of the code as it is): bee search's
+    loop stops on the program count `G.programs()`.  If `L` lists the members of the grammar and the enumerator has yielded
+    at least `L.length` programs (no merge declaration; any filter), then it has yielded EXACTLY the language, each program
+    once: soundness + no duplicates + counting.  (That the count IS reached — termination — is not proved: it is false when
+    a rule with arguments costs 0, finding C02-F6, and with a rejecting filter, finding C12-F11.) -/
+theorem C02_Bee_count_complete_partial (E : Env S) (hd : dictOK E = true) (hf : initFrontOK E = true) (fuel : Nat)
+    (acts : List Act) (hacts : acts.all Act.isTake = true) (g0 g : Gen S) (out : List Prog) (h0 : Gen.new E = some g0)
+    (h : runActs E fuel acts g0 [] = some (g, out)) (L : List Prog) (hL : ∀ p, gen E.G p E.G.start = true → p ∈ L)
+    (hcount : L.length ≤ out.length) : out.Perm L := by
+  have hnd := C02_Bee_nodup_partial E hd hf fuel acts hacts g0 g out h0 h
+  have hsub : out ⊆ L := fun p hp => hL p (C02_Bee_sound E fuel acts g0 g out h0 h p hp)
+  exact (List.subperm_of_subset hnd hsub).perm_of_length_le hcount
+
+example : dictOK cE = true ∧ initFrontOK cE = true ∧ initCoverOK cE = true := by decide +kernel
 example : ((Gen.new cE).bind fun g => runActs cE 1000 [.take 3, .take 10] g []).map (fun r => decide r.2.Nodup && decide (r.2.length = 5)) = some true := by
   decide +kernel
 
